@@ -124,6 +124,7 @@ func c18NewDBOpt(prepareStmt bool) *c18DB {
 // one (shared) step function - and one shared Combine of such functions - serves every transaction.
 // kinds: 0 ok, 1 plain error, 2 panic, 3 error wrapping context.Canceled, 4 error wrapping context.DeadlineExceeded,
 // 5 the step rolls the transaction back itself and returns nil (generated as the last step only),
+// 10 runtime.Error panic, 11 panic(error value),
 // 6 panic(nil), 7 runtime.Goexit(), 8 nested Transact whose failure the step returns, 9 nested Transact whose failure the step ignores.
 func c18StepFn(i int) gormx.GormProcFn {
 	return func(txn *gorm.DB) error {
@@ -161,6 +162,12 @@ func c18StepFn(i int) gormx.GormProcFn {
 			return nil
 		case 9:
 			_ = gormx.Transact(txn, c18InnerStep) // the same, but the step ignores the inner failure and succeeds
+		case 10:
+			// a genuine runtime.Error panic (a bug in the step): handled like every other panic - rolled back, reported
+			var m map[int]int
+			m[i] = 1
+		case 11:
+			panic(fmt.Errorf("step-panic-%d", i)) // an error VALUE as the panic value
 		}
 		return nil
 	}
@@ -295,6 +302,8 @@ func c18CoqResult(r string) string {
 		return fmt.Sprintf("(RStepErr %d)", i)
 	case r == "db.transaction.panic:<nil>":
 		return "(RPanicErr 777)"
+	case r == "db.transaction.panic:assignment to entry in nil map":
+		return "(RPanicErr 779)"
 	case r == "GOROUTINE-ENDED-WITHOUT-RETURN":
 		return "(RPanicErr 778)"
 	case strings.HasPrefix(r, "db.transaction.panic:step-panic-"):
@@ -315,8 +324,10 @@ func c18CoqSteps(steps []int) string {
 			ss[i] = "SOk"
 		case 1, 3, 4, 8:
 			ss[i] = fmt.Sprintf("SFail %d", i)
-		case 2:
+		case 2, 11:
 			ss[i] = fmt.Sprintf("SPanic %d", i)
+		case 10:
+			ss[i] = "SPanic 779"
 		case 5:
 			ss[i] = "SDoneRb"
 		case 6:
@@ -345,7 +356,7 @@ func c18CaseM(mode string, b, c, r bool, steps []int, ev []string, res string, c
 	coq := fmt.Sprintf("(%s, {| begin_ok := %s; commit_ok := %s; rollback_ok := %s; steps := %s |}, (%s, %s))",
 		mode, vh.CoqBool(b), vh.CoqBool(c), vh.CoqBool(r), c18CoqSteps(steps), c18CoqEvents(ev), cres)
 	desc := map[string]interface{}{"mode": mode, "combined": comb, "begin_ok": b, "commit_ok": c, "rollback_ok": r,
-		"steps(0 ok,1 error,2 panic,3 error wrapping context.Canceled,4 wrapping DeadlineExceeded,5 step rolls back itself,6 panic(nil),7 runtime.Goexit,8 nested Transact failure returned,9 nested Transact failure ignored)": steps, "events": ev, "result": res}
+		"steps(0 ok,1 error,2 panic,3 error wrapping context.Canceled,4 wrapping DeadlineExceeded,5 step rolls back itself,6 panic(nil),7 runtime.Goexit,8 nested Transact failure returned,9 nested Transact failure ignored,10 runtime.Error panic (nil map write),11 panic(error value))": steps, "events": ev, "result": res}
 	for k, v := range extra {
 		desc[k] = v
 	}
@@ -412,6 +423,11 @@ func main() {
 					sp := make([]int, n)
 					sp[pos] = k
 					emit(sp, " nil-panic-or-goexit")
+				}
+				for _, k := range []int{10, 11} {
+					sp := make([]int, n)
+					sp[pos] = k
+					emit(sp, " runtime-error-or-error-value-panic")
 				}
 			}
 		}
